@@ -194,7 +194,16 @@ func (g *jgen) script(timed bool) {
 		if len(xs) > 0 {
 			l = strings.Join(xs, ",")
 		}
-		if strings.HasPrefix(g.do(fmt.Sprintf("item %d %s", g.n, l)), "st=done") {
+		op := fmt.Sprintf("item %d %s", g.n, l)
+		if timed && r.Intn(4) == 0 {
+			// an element accepted half a timeout / two timeouts after passAt
+			e := int64(timeout) / 2
+			if r.Intn(2) == 0 {
+				e = int64(timeout) * 2
+			}
+			op = fmt.Sprintf("itemat %d %d %s", e, g.n, l)
+		}
+		if strings.HasPrefix(g.do(op), "st=done") {
 			return
 		}
 	}
